@@ -53,7 +53,7 @@ Section Bound.
   Definition G (s : st) : Prop :=
     reof (re s) = true \/ (over s -> ppaused (pa s) = true /\ rpaused (pr s) = true /\ (connected (pr s) = true -> tpaused (pr s) = true)).
   Definition K (s : st) : Prop :=
-    reof (re s) = true \/ parser_alive (pr s) = false \/
+    reof (re s) = true \/ connected (pr s) = false \/
     (over s -> rpaused (pr s) = true /\ (connected (pr s) = true -> tpaused (pr s) = true)).
   (* things no parser function changes *)
   Definition frame (s s' : st) : Prop :=
@@ -215,7 +215,8 @@ Section Bound.
       + destruct (plength (pa s3) =? 0).
         * intros Hf. destruct (finish_eof_spec _ _ _ _ Hf) as (F4 & B4 & K4 & _ & E4).
           split; [ft|]. split; [auto|]. split; auto.
-        * intros [= <- <-]. split; [ft|]. split; [auto|]. split; [auto|]. err_tac.
+        * intros [= <- <-]. destruct (upd_unpause s3 (fun q => pa_paused q false)) as (F4 & B4 & _ & K4 & _); [keeps_tac|].
+          split; [ft|]. split; [auto|]. split; [auto|]. err_tac.
       + intros [= <- <-]. destruct (upd_keep s3 (fun q => pa_tail q (drop req chunk))) as (F4 & B4 & _ & K4 & _); [keeps_tac|].
         split; [ft|]. split; [auto|]. split; [auto|]. err_tac.
       + intros [= <- <-]. split; [ft|]. split; [auto|]. split; [auto|]. err_tac. apply E3; reflexivity.
@@ -240,7 +241,8 @@ Section Bound.
           -- split; [ft|]. split; [auto|]. split; [auto|]. err_tac. apply E4; reflexivity.
           -- destruct (upd_keep s4 (fun q => pa_eofp (pa_done q true) false)) as (F5 & B5 & _ & K5 & _); [keeps_tac|].
              split; [ft|]. split; [auto|]. split; [auto|]. err_tac.
-        * intros [= <- <-]. split; [ft|]. split; [auto|]. split; [auto|]. err_tac.
+        * intros [= <- <-]. destruct (upd_unpause s3 (fun q => pa_paused q false)) as (F4 & B4 & _ & K4 & _); [keeps_tac|].
+          split; [ft|]. split; [auto|]. split; [auto|]. err_tac.
       + intros [= <- <-]. split; [ft|]. split; [auto|]. split; [auto|]. err_tac.
       + intros [= <- <-]. split; [ft|]. split; [auto|]. split; [auto|]. err_tac. apply E3; reflexivity.
   Qed.
@@ -283,25 +285,18 @@ Section Bound.
   Qed.
 
   Ltac leafG := apply bok_of_R; [assumption|assumption|solveR].
-  Lemma blk_size_spec s chunk : ptyp (pa s) = PChunked -> B s -> G s -> bok s (blk_size H s chunk).
-  Proof.
-    intros Ht Hb Hg. unfold blk_size.
-    repeat match goal with
-           | |- bok _ (match ?x with _ => _ end) => destruct x eqn:?
-           | |- bok _ (if ?x then _ else _) => destruct x eqn:?
-           | |- bok _ (let _ := _ in _) => cbv zeta
-           end; cbn [bok];
-      first [ leafG
-            | (destruct (bokK_of_R s _ Hb Hg ltac:(solveR)) as (X1 & X2 & X3); split; [exact X1|split; [exact X2|split; [exact X3|left; exact Ht]]]) ].
-  Qed.
-
-  Ltac leafKc Ht Hb Hg s := destruct (bokK_of_R s _ Hb Hg ltac:(solveR)) as (X1 & X2 & X3); split; [exact X1|split; [exact X2|split; [exact X3|left; exact Ht]]].
+  Ltac leafKc1 Ht Hb Hg s := destruct (bokK_of_R s _ Hb Hg ltac:(solveR)) as (X1 & X2 & X3); split; [exact X1|split; [exact X2|split; [exact X3|left; exact Ht]]].
+  Ltac leafKc2 Ht Hb Hg s := destruct (bokK_unpause s s _ Hb Hg (R_refl s)) as (X1 & X2 & X3); [keeps_tac|]; split; [exact X1|split; [exact X2|split; [exact X3|left; exact Ht]]].
+  Ltac leafKc Ht Hb Hg s := first [leafKc1 Ht Hb Hg s | leafKc2 Ht Hb Hg s].
   Ltac walk :=
     repeat match goal with
            | |- bok _ (match ?x with _ => _ end) => destruct x eqn:?
            | |- bok _ (if ?x then _ else _) => destruct x eqn:?
            | |- bok _ (let _ := _ in _) => cbv zeta
            end; cbn [bok].
+
+  Lemma blk_size_spec s chunk : ptyp (pa s) = PChunked -> B s -> G s -> bok s (blk_size H s chunk).
+  Proof. intros Ht Hb Hg. unfold blk_size. walk; first [leafG | leafKc Ht Hb Hg s]. Qed.
 
   Lemma blk_eof_spec s chunk : ptyp (pa s) = PChunked -> B s -> G s -> bok s (blk_eof H s chunk).
   Proof. intros Ht Hb Hg. unfold blk_eof. walk; first [leafG | leafKc Ht Hb Hg s]. Qed.
@@ -352,7 +347,8 @@ Section Bound.
   Proof.
     induction f as [|f IH]; intros s chunk s' r Hc Ht Hb Hg; cbn [chunk_loop].
     - intros [= <- <-]. split; [apply frame_refl|]. auto using G_K.
-    - destruct (isnil chunk && negb (more (pa s))); [intros [= <- <-]; split; [apply frame_refl|]; auto using G_K|].
+    - destruct (isnil chunk && negb (more (pa s))).
+      { intros [= <- <-]. destruct (upd_unpause s (fun q => pa_paused q false)) as (F0 & B0 & G0 & _); [keeps_tac|]. auto. }
       assert (next : forall t c, frame s t -> B t -> G t -> chunk_loop H hnew hstep havail heof hflush f t c = (s', r) -> frame s s' /\ B s' /\ K s').
       { intros t c Ft Bt Gt Hl. apply IH in Hl; auto.
         - destruct Hl as (F' & B' & K'). split; [eapply frame_trans; eauto|]. auto.
@@ -457,19 +453,19 @@ Section Bound.
   Lemma connection_lost_spec f s :
     comp (de s) = true -> B s -> K s -> (ptyp (pa s) = PChunked \/ G s) ->
     let s' := connection_lost H hnew hstep havail heof hflush f s in
-    marks s s' /\ B s' /\ parser_alive (pr s') = false /\ connected (pr s') = false /\ closing (pr s') = false.
+    marks s s' /\ B s' /\ connected (pr s') = false /\ closing (pr s') = false.
   Proof.
-    intros Hc Hb Hk Hg. unfold connection_lost. cbv zeta.
-    match goal with |- context [pr_set H ?t _] => remember t as s1 eqn:Es1 end.
+    intros Hc Hb Hk Hg. unfold connection_lost.
+    destruct (if parser_alive (pr s) && pp_present (pr s) then _ else _) as [s1 keep] eqn:Ex.
     assert (H1 : frame s s1 /\ B s1).
-    { subst s1. destruct (parser_alive (pr s) && pp_present (pr s)); [|split; [apply frame_refl|assumption]].
+    { destruct (parser_alive (pr s) && pp_present (pr s)); [|inversion Ex; subst; split; [apply frame_refl|assumption]].
       destruct (payload_feed_eof H hnew hstep havail heof hflush f s) as [s2 [e|]] eqn:Ef;
         destruct (payload_feed_eof_spec _ _ _ _ Hc Hb Hk Hg Ef) as (F2 & B2 & K2).
-      - destruct (R_exn s2 e) as (F3 & B3 & _). split; [ft|auto].
-      - destruct (pdone (pa s2)); [|auto].
+      - inversion Ex; subst. destruct (R_exn s2 e) as (F3 & B3 & _). split; [ft|auto].
+      - destruct (pdone (pa s2)); inversion Ex; subst; [|auto].
         destruct (R_pr s2 (fun p => mkProt (connected p) (tpaused p) (rpaused p) (parser_alive p) false (has_more p) (closing p))) as ((F3 & B3 & _) & _); [prk|].
         split; [ft|auto]. }
-    clear Es1. destruct H1 as (F1 & B1). apply frame_marks in F1. clear - F1 B1.
+    clear Ex. destruct H1 as (F1 & B1). apply frame_marks in F1. clear - F1 B1. cbv zeta.
     bust s1. unfold marks in *. unf. unfold pr_set. cbn in *. crush.
   Qed.
 
@@ -522,7 +518,7 @@ Section Bound.
   Definition Inv (c : cfg) (s : st) : Prop :=
     cf s = c /\ comp (de s) = true /\ c_flow c = true /\ 1 <= c_limit c /\
     B s /\ K s /\ Sz s /\ high (re s) = low (re s) * 2 /\
-    (closing (pr s) = true -> ptyp (pa s) = PChunked) /\ (connected (pr s) = false -> parser_alive (pr s) = false).
+    (closing (pr s) = true -> ptyp (pa s) = PChunked) /\ True.
 
   Lemma resume_spec f s :
     comp (de s) = true -> B s -> ~ over s ->
@@ -550,7 +546,7 @@ Section Bound.
     unfold Inv, frame0. intros (I1 & I2 & I3 & I4 & I5 & I6 & I7 & I8 & I9 & I10) (F1 & F2 & F3 & F4 & F5 & F6 & F7 & F8) Hb Hk Hcl.
     split; [congruence|]. split; [auto|]. split; [assumption|]. split; [assumption|]. split; [assumption|]. split; [assumption|].
     split; [auto|]. split; [congruence|]. split; [intro X; rewrite F5; destruct (Hcl X); auto|].
-    rewrite F6, F7. exact I10.
+    exact I.
   Qed.
 
   (* _read_nowait_chunk *)
@@ -622,7 +618,7 @@ Section Bound.
   Proof.
     intros Hi. unfold op_body. cbv zeta.
     destruct (isnil (buf (re s)) && negb (reof (re s))).
-    - destruct (connected (pr s)); intros [= <- <-]; apply set_wt_inv; exact Hi.
+    - destruct (rexn (re s)); [|destruct (connected (pr s))]; intros [= <- <-]; apply set_wt_inv; exact Hi.
     - pose proof (set_wt_inv c s WNone Hi) as H1. destruct o as [|n|n].
       + destruct (take_k H hnew hstep havail heof hflush f (length (buf (re s))) (set_wt H s WNone) []) as [s1 d] eqn:Et.
         intros [= <- <-]. eapply take_k_inv; eauto.
@@ -659,15 +655,15 @@ Section Bound.
   Lemma connection_lost_inv c f s : Inv c s -> (ptyp (pa s) = PChunked \/ G s) -> Inv c (connection_lost H hnew hstep havail heof hflush f s).
   Proof.
     intros (I1 & I2 & I3 & I4 & I5 & I6 & I7 & I8 & I9 & I10) Hg.
-    destruct (connection_lost_spec f s I2 I5 I6 Hg) as ((M1 & M2 & M3 & M4 & M5 & M6) & B1 & A1 & C1 & Cl1). cbv zeta in *.
-    unfold Inv. repeat split; try congruence; auto.
-    unfold K. right; left; exact A1.
+    destruct (connection_lost_spec f s I2 I5 I6 Hg) as ((M1 & M2 & M3 & M4 & M5 & M6) & B1 & C1 & Cl1). cbv zeta in *.
+    unfold Inv. split; [congruence|]. split; [auto|]. split; [assumption|]. split; [assumption|]. split; [assumption|].
+    split; [unfold K; right; left; exact C1|]. split; [auto|]. split; [congruence|]. split; [intro X; congruence|exact I].
   Qed.
 
   (* a stimulus may only reach the protocol while the transport is reading: then nothing is over the mark *)
-  Lemma deliverable_E c s : Inv c s -> deliverable H s = true -> parser_alive (pr s) = true -> E s.
+  Lemma deliverable_E c s : Inv c s -> deliverable H s = true -> E s.
   Proof.
-    intros (I1 & I2 & I3 & I4 & I5 & I6 & I7 & I8 & I9 & I10) Hd Ha. unfold deliverable in Hd. rewrite I1, I3 in Hd. cbn in Hd.
+    intros (I1 & I2 & I3 & I4 & I5 & I6 & I7 & I8 & I9 & I10) Hd. unfold deliverable in Hd. rewrite I1, I3 in Hd. cbn in Hd.
     apply andb_true_iff in Hd as [Hc Ht]. unfold E, K in *. destruct I6 as [?|[?|I6]]; [left; assumption|congruence|].
     right. intro Ho. destruct (I6 Ho) as (_ & X). specialize (X Hc). rewrite X in Ht. discriminate.
   Qed.
@@ -686,7 +682,7 @@ Section Bound.
     intros Hi. unfold step. cbv zeta. destruct ev as [d| |op0].
     - destruct (deliverable H (core y) && pp_present (pr (core y)) && parser_alive (pr (core y)) && negb (isnil d)) eqn:Ed; [|intros [= <- <-]; exact Hi].
       apply andb_true_iff in Ed as [Ed _]. apply andb_true_iff in Ed as [Ed Ha]. apply andb_true_iff in Ed as [Ed _].
-      pose proof (deliverable_E c _ Hi Ed Ha) as He.
+      pose proof (deliverable_E c _ Hi Ed) as He.
       pose proof Hi as (I1 & I2 & I3 & I4 & I5 & I6 & I7 & I8 & I9 & I10).
       destruct (parser_feed_spec f (core y) d I2 I5 He) as (F1 & B1 & K1 & Cl1). cbv zeta in *.
       assert (J : Inv c (parser_feed H hnew hstep havail heof hflush f (core y) d)).
@@ -696,7 +692,7 @@ Section Bound.
       eapply poll_inv in Ep; [|exact J]. eapply settle_inv in Hs; [exact Hs|exact Ep].
     - destruct (deliverable H (core y) && pp_present (pr (core y)) && parser_alive (pr (core y))) eqn:Ed; [|intros [= <- <-]; exact Hi].
       apply andb_true_iff in Ed as [Ed Ha]. apply andb_true_iff in Ed as [Ed _].
-      pose proof (deliverable_E c _ Hi Ed Ha) as He.
+      pose proof (deliverable_E c _ Hi Ed) as He.
       intros Hp. eapply poll_inv in Hp; [exact Hp|]. cbn [core]. apply connection_lost_inv; [exact Hi|]. right. apply E_G; exact He.
     - destruct (pend y); [intros [= <- <-]; exact Hi|].
       destruct (op_start H hnew hstep havail heof hflush f (core y) op0) as [s1 r] eqn:Eo.
